@@ -1,1 +1,2 @@
 pub mod net;
+pub mod sw;
